@@ -1674,19 +1674,22 @@ def AdmRun : Heap ℝ → List (HOp ℝ) → Prop
   | _, [] => True
   | h, op :: rest => Adm h op ∧ AdmRun (stepH h op) rest
 
-theorem inv_of_allocLike_target (h : Heap ℝ) (hi : HInv h) (j : Nat) (o : Obj ℝ) (ho : OK o) :
-    ∀ o', (h.allocObj j o).get j = some o' → OK o' := by
-  intro o' e
-  rw [alloc_get_target h hi.1 j o o' e]; exact ho
+/-- every ratio cache of the heap holds the ratios of the current parameters -/
+def HFresh (h : Heap ℝ) : Prop := ∀ r o, h.get r = some o → Fresh o
 
-theorem step_inv (h : Heap ℝ) (hi : HInv h) (op : HOp ℝ) (ha : Adm h op) : HInv (stepH h op) := by
-  obtain ⟨f1, f2, _⟩ := step_sep_frame h hi.1 op
-  refine ⟨f1, ?_⟩
-  intro r o e
-  by_cases hr : r = op.target
-  swap
-  · rw [f2 r hr] at e; exact hi.2 r o e
-  subst hr
+/-- what one admissible call establishes for the object in its target register: the invariant, and
+— if the call did not raise and the caches were fresh — a fresh cache -/
+theorem step_target (h : Heap ℝ) (hi : HInv h) (op : HOp ℝ) (ha : Adm h op) (o : Obj ℝ)
+    (e : (stepH h op).get op.target = some o) :
+    OK o ∧ (HFresh h → (applyH h op).2 = none → Fresh o) := by
+  have same : stepH h op = h → OK o ∧ (HFresh h → (applyH h op).2 = none → Fresh o) := by
+    intro hs; rw [hs] at e; exact ⟨hi.2 _ o e, fun hf _ => hf _ o e⟩
+  have alloc : ∀ o1, stepH h op = h.allocObj op.target o1 → OK o1 → (HFresh h → Fresh o1) →
+      OK o ∧ (HFresh h → (applyH h op).2 = none → Fresh o) := by
+    intro o1 hs h1 h2
+    rw [hs] at e
+    rw [alloc_get_target h hi.1 _ o1 o e]
+    exact ⟨h1, fun hf _ => h2 hf⟩
   cases op with
   | newVec j ord m a p =>
     cases ord with
@@ -1694,19 +1697,13 @@ theorem step_inv (h : Heap ℝ) (hi : HInv h) (op : HOp ℝ) (ha : Adm h op) : H
       obtain ⟨o1, e1, b1, _⟩ := construct_ok p m a ha.1 ha.2
       rcases create_effect h j (construct p m a) with ⟨o2, e2, e3, _⟩ | ⟨err, e2, _⟩
       · rw [e1] at e2; cases e2
-        have e' : (h.allocObj j o1).get j = some o := by
-          have : stepH h (.newVec j false m a p) = h.allocObj j o1 := e3
-          rw [← this]; exact e
-        exact inv_of_allocLike_target h hi j o1 b1.ok o e'
+        exact alloc o1 e3 b1.ok (fun _ => b1.fresh)
       · rw [e1] at e2; cases e2
     | true =>
       obtain ⟨o1, e1, b1, _⟩ := oConstruct_ok p m a ha.1 ha.2
       rcases create_effect h j (oConstruct p m a) with ⟨o2, e2, e3, _⟩ | ⟨err, e2, _⟩
       · rw [e1] at e2; cases e2
-        have e' : (h.allocObj j o1).get j = some o := by
-          have : stepH h (.newVec j true m a p) = h.allocObj j o1 := e3
-          rw [← this]; exact e
-        exact inv_of_allocLike_target h hi j o1 b1.ok o e'
+        exact alloc o1 e3 b1.ok (fun _ => b1.fresh)
       · rw [e1] at e2; cases e2
   | newDim j ord n m a =>
     cases ord with
@@ -1714,133 +1711,134 @@ theorem step_inv (h : Heap ℝ) (hi : HInv h) (op : HOp ℝ) (ha : Adm h op) : H
       obtain ⟨o1, e1, b1, _⟩ := constructDim_ok n m a ha.1 ha.2.1 ha.2.2
       rcases create_effect h j (constructDim n m a) with ⟨o2, e2, e3, _⟩ | ⟨err, e2, _⟩
       · rw [e1] at e2; cases e2
-        have e' : (h.allocObj j o1).get j = some o := by
-          have : stepH h (.newDim j false n m a) = h.allocObj j o1 := e3
-          rw [← this]; exact e
-        exact inv_of_allocLike_target h hi j o1 b1.ok o e'
+        exact alloc o1 e3 b1.ok (fun _ => b1.fresh)
       · rw [e1] at e2; cases e2
     | true =>
       obtain ⟨o1, e1, b1, _⟩ := oConstructDim_ok n m a ha.1 ha.2.1 ha.2.2
       rcases create_effect h j (oConstructDim n m a) with ⟨o2, e2, e3, _⟩ | ⟨err, e2, _⟩
       · rw [e1] at e2; cases e2
-        have e' : (h.allocObj j o1).get j = some o := by
-          have : stepH h (.newDim j true n m a) = h.allocObj j o1 := e3
-          rw [← this]; exact e
-        exact inv_of_allocLike_target h hi j o1 b1.ok o e'
+        exact alloc o1 e3 b1.ok (fun _ => b1.fresh)
       · rw [e1] at e2; cases e2
   | setFreq k p =>
     obtain ⟨_, _, _, u4, u5⟩ := update_spec h hi.1 k (fun o => o.setFrequencies p)
       (fun o => (setFrequencies_same o p).len)
     cases hg : h.get k with
-    | none =>
-      have : stepH h (.setFreq k p) = h := u5 hg
-      rw [this] at e; exact hi.2 _ o e
+    | none => exact same (u5 hg)
     | some o0 =>
       have h1 : (stepH h (.setFreq k p)).get k = some (o0.setFrequencies p).1 := (u4 o0 hg).1
+      have h2 : (applyH h (.setFreq k p)).2 = Option.map HErr.exc (o0.setFrequencies p).2 := (u4 o0 hg).2
       have e' : (stepH h (.setFreq k p)).get k = some o := e
-      rw [h1] at e'; cases e'
-      exact (setFrequencies_pres o0 (hi.2 k o0 hg) p (ha o0 hg)).1
+      rw [h1] at e'; rw [← Option.some.inj e']
+      obtain ⟨p1, _, p3, _⟩ := setFrequencies_pres o0 (hi.2 k o0 hg) p (ha o0 hg)
+      refine ⟨p1, fun _ hacc => p3 ?_⟩
+      rw [h2] at hacc
+      cases hx : (o0.setFrequencies p).2 with
+      | none => rfl
+      | some err => rw [hx] at hacc; cases hacc
   | setPar k θ =>
     obtain ⟨_, _, _, u4, u5⟩ := updateE_spec h hi.1 k (fun o => o.matchReq (reqOfList θ))
       (fun o o' e => (matchReq_same o o' _ e).len)
     cases hg : h.get k with
-    | none =>
-      have : stepH h (.setPar k θ) = h := u5 hg
-      rw [this] at e; exact hi.2 _ o e
+    | none => exact same (u5 hg)
     | some o0 =>
       cases hf : o0.matchReq (reqOfList θ) with
-      | error err =>
-        have : stepH h (.setPar k θ) = h := ((u4 o0 hg).2 err hf).1
-        rw [this] at e; exact hi.2 _ o e
+      | error err => exact same ((u4 o0 hg).2 err hf).1
       | ok o1 =>
         have h1 : (stepH h (.setPar k θ)).get k = some o1 := ((u4 o0 hg).1 o1 hf).1
         have e' : (stepH h (.setPar k θ)).get k = some o := e
         rw [h1] at e'; rw [← Option.some.inj e']
-        exact (matchReq_ok o0 (hi.2 k o0 hg) _ (ha o0 hg) o1 hf).1
+        obtain ⟨p1, p2, _⟩ := matchReq_ok o0 (hi.2 k o0 hg) _ (ha o0 hg) o1 hf
+        exact ⟨p1, fun hf' _ => p2 (hf' k o0 hg)⟩
   | matchSome k pl =>
     obtain ⟨_, _, _, u4, u5⟩ := updateE_spec h hi.1 k (fun o => o.matchReq (reqOfPairs pl))
       (fun o o' e => (matchReq_same o o' _ e).len)
     cases hg : h.get k with
-    | none =>
-      have : stepH h (.matchSome k pl) = h := u5 hg
-      rw [this] at e; exact hi.2 _ o e
+    | none => exact same (u5 hg)
     | some o0 =>
       cases hf : o0.matchReq (reqOfPairs pl) with
-      | error err =>
-        have : stepH h (.matchSome k pl) = h := ((u4 o0 hg).2 err hf).1
-        rw [this] at e; exact hi.2 _ o e
+      | error err => exact same ((u4 o0 hg).2 err hf).1
       | ok o1 =>
         have h1 : (stepH h (.matchSome k pl)).get k = some o1 := ((u4 o0 hg).1 o1 hf).1
         have e' : (stepH h (.matchSome k pl)).get k = some o := e
         rw [h1] at e'; rw [← Option.some.inj e']
-        exact (matchReq_ok o0 (hi.2 k o0 hg) _ (ha o0 hg) o1 hf).1
+        obtain ⟨p1, p2, _⟩ := matchReq_ok o0 (hi.2 k o0 hg) _ (ha o0 hg) o1 hf
+        exact ⟨p1, fun hf' _ => p2 (hf' k o0 hg)⟩
   | setSome k pl =>
     obtain ⟨_, _, _, u4, u5⟩ := updateE_spec h hi.1 k (fun o => o.setReq (reqOfPairs pl))
       (fun o o' e => (setReq_same o o' _ e).len)
     cases hg : h.get k with
-    | none =>
-      have : stepH h (.setSome k pl) = h := u5 hg
-      rw [this] at e; exact hi.2 _ o e
+    | none => exact same (u5 hg)
     | some o0 =>
       cases hf : o0.setReq (reqOfPairs pl) with
-      | error err =>
-        have : stepH h (.setSome k pl) = h := ((u4 o0 hg).2 err hf).1
-        rw [this] at e; exact hi.2 _ o e
+      | error err => exact same ((u4 o0 hg).2 err hf).1
       | ok o1 =>
         have h1 : (stepH h (.setSome k pl)).get k = some o1 := ((u4 o0 hg).1 o1 hf).1
         have e' : (stepH h (.setSome k pl)).get k = some o := e
         rw [h1] at e'; rw [← Option.some.inj e']
-        exact (setReq_ok o0 (hi.2 k o0 hg).toShape _ (ha o0 hg) o1 hf).1
+        obtain ⟨p1, p2, _⟩ := setReq_ok o0 (hi.2 k o0 hg).toShape _ (ha o0 hg) o1 hf
+        exact ⟨p1, fun _ _ => p2⟩
   | setOne k i v =>
     obtain ⟨_, _, _, u4, u5⟩ := updateE_spec h hi.1 k (fun o => o.setOne i v)
       (fun o o' e => (setOne_same o o' i v e).len)
     cases hg : h.get k with
-    | none =>
-      have : stepH h (.setOne k i v) = h := u5 hg
-      rw [this] at e; exact hi.2 _ o e
+    | none => exact same (u5 hg)
     | some o0 =>
       cases hf : o0.setOne i v with
-      | error err =>
-        have : stepH h (.setOne k i v) = h := ((u4 o0 hg).2 err hf).1
-        rw [this] at e; exact hi.2 _ o e
+      | error err => exact same ((u4 o0 hg).2 err hf).1
       | ok o1 =>
         have h1 : (stepH h (.setOne k i v)).get k = some o1 := ((u4 o0 hg).1 o1 hf).1
         have e' : (stepH h (.setOne k i v)).get k = some o := e
         rw [h1] at e'; rw [← Option.some.inj e']
-        exact (setOne_ok o0 (hi.2 k o0 hg).toShape i v (ha o0 hg) o1 hf).1
+        obtain ⟨p1, p2, _⟩ := setOne_ok o0 (hi.2 k o0 hg).toShape i v (ha o0 hg) o1 hf
+        exact ⟨p1, fun _ _ => p2⟩
   | fire k =>
     obtain ⟨_, _, _, u4, u5⟩ := updateE_spec h hi.1 k (fun o => .ok o.fire) fire_len
     cases hg : h.get k with
-    | none =>
-      have : stepH h (.fire k) = h := u5 hg
-      rw [this] at e; exact hi.2 _ o e
+    | none => exact same (u5 hg)
     | some o0 =>
       have h1 : (stepH h (.fire k)).get k = some o0.fire := ((u4 o0 hg).1 o0.fire rfl).1
       have e' : (stepH h (.fire k)).get k = some o := e
-      rw [h1] at e'; cases e'
-      exact (fire_ok o0 (hi.2 k o0 hg).toShape).1
+      rw [h1] at e'; rw [← Option.some.inj e']
+      obtain ⟨p1, p2⟩ := fire_ok o0 (hi.2 k o0 hg).toShape
+      exact ⟨p1, fun _ _ => p2⟩
   | copy k j =>
     rcases copy_effect h k j with ⟨_, e1⟩ | ⟨src, hsrc, e1⟩
-    · rw [e1] at e; exact hi.2 _ o e
-    · rw [e1] at e
-      exact inv_of_allocLike_target h hi j _ (by rw [copyCtor_eq]; exact hi.2 k src hsrc) o e
+    · exact same e1
+    · exact alloc _ e1 (by rw [copyCtor_eq]; exact hi.2 k src hsrc)
+        (fun hf => by rw [copyCtor_eq]; exact hf k src hsrc)
   | sliceCopy k j =>
     rcases sliceCopy_effect h k j with ⟨_, e1⟩ | ⟨src, hsrc, e1⟩
-    · rw [e1] at e; exact hi.2 _ o e
-    · rw [e1] at e
-      exact inv_of_allocLike_target h hi j _ (by rw [copySimplexPart_eq]; exact ok_slice src (hi.2 k src hsrc)) o e
+    · exact same e1
+    · exact alloc _ e1 (by rw [copySimplexPart_eq]; exact ok_slice src (hi.2 k src hsrc))
+        (fun hf => by rw [copySimplexPart_eq]; exact hf k src hsrc)
   | assign k j =>
     rcases assign_effect h k j with e1 | ⟨src, tgt, hsrc, _, _, _, e1⟩
-    · rw [e1] at e; exact hi.2 _ o e
-    · rw [e1] at e
-      exact inv_of_allocLike_target h hi j _ (by rw [assign_eq]; exact hi.2 k src hsrc) o e
+    · exact same e1
+    · exact alloc _ e1 (by rw [assign_eq]; exact hi.2 k src hsrc)
+        (fun hf => by rw [assign_eq]; exact hf k src hsrc)
   | sliceAssign k j =>
     rcases sliceAssign_effect h k j with e1 | ⟨src, tgt, hsrc, _, _, htn, e1⟩
-    · rw [e1] at e; exact hi.2 _ o e
-    · rw [e1] at e
-      exact inv_of_allocLike_target h hi j _
-        (by rw [assignSimplexPart_eq, htn]; exact ok_slice src (hi.2 k src hsrc)) o e
+    · exact same e1
+    · exact alloc _ e1 (by rw [assignSimplexPart_eq, htn]; exact ok_slice src (hi.2 k src hsrc))
+        (fun hf => by rw [assignSimplexPart_eq]; exact hf k src hsrc)
   | baseAssign k j => exact absurd ha id
+
+theorem step_inv (h : Heap ℝ) (hi : HInv h) (op : HOp ℝ) (ha : Adm h op) : HInv (stepH h op) := by
+  obtain ⟨f1, f2, _⟩ := step_sep_frame h hi.1 op
+  refine ⟨f1, ?_⟩
+  intro r o e
+  by_cases hr : r = op.target
+  · subst hr; exact (step_target h hi op ha o e).1
+  · rw [f2 r hr] at e; exact hi.2 r o e
+
+/-- a call that does not raise keeps every ratio cache of the heap fresh -/
+theorem step_fresh (h : Heap ℝ) (hi : HInv h) (hf : HFresh h) (op : HOp ℝ) (ha : Adm h op)
+    (hacc : (applyH h op).2 = none) : HFresh (stepH h op) := by
+  obtain ⟨_, f2, _⟩ := step_sep_frame h hi.1 op
+  intro r o e
+  by_cases hr : r = op.target
+  · subst hr; exact (step_target h hi op ha o e).2 hf hacc
+  · rw [f2 r hr] at e; exact hf r o e
 
 theorem inv_empty (n : Nat) : HInv (Heap.empty n : Heap ℝ) := by
   refine ⟨sep_empty n, ?_⟩
@@ -1854,5 +1852,271 @@ theorem run_inv (h : Heap ℝ) (hi : HInv h) (ops : List (HOp ℝ)) (ha : AdmRun
   induction ops generalizing h with
   | nil => exact hi
   | cons op rest ih => exact ih _ (step_inv h hi op ha.1) ha.2
+
+/-- no call of the history raises -/
+def NoRaise : Heap ℝ → List (HOp ℝ) → Prop
+  | _, [] => True
+  | h, op :: rest => (applyH h op).2 = none ∧ NoRaise (stepH h op) rest
+
+theorem fresh_empty (n : Nat) : HFresh (Heap.empty n : Heap ℝ) := by
+  intro r o e
+  have := get_lt _ r o e
+  have hk : r < n := by simpa [Heap.empty] using this
+  have : (Heap.empty n : Heap ℝ).obj? r = none := by simp [Heap.obj?, Heap.empty, hk]
+  rw [(get_none _ r this).1] at e; cases e
+
+theorem run_fresh (h : Heap ℝ) (hi : HInv h) (hf : HFresh h) (ops : List (HOp ℝ)) (ha : AdmRun h ops)
+    (hn : NoRaise h ops) : HFresh (runH h ops) := by
+  induction ops generalizing h with
+  | nil => exact hf
+  | cons op rest ih =>
+    exact ih _ (step_inv h hi op ha.1) (step_fresh h hi hf op ha.1 hn.1) ha.2 hn.2
+
+/-! ### frame over histories, what copies carry -/
+
+theorem run_regs_length (h : Heap ℝ) (hs : Sep h) (ops : List (HOp ℝ)) :
+    (runH h ops).regs.length = h.regs.length := by
+  induction ops generalizing h with
+  | nil => rfl
+  | cons op rest ih =>
+    obtain ⟨f1, _, f3⟩ := step_sep_frame h hs op
+    exact (ih _ f1).trans f3
+
+/-- calls none of which targets register `r` leave it exactly as it was (every member) -/
+theorem run_frame (h : Heap ℝ) (hs : Sep h) (r : Nat) (ops : List (HOp ℝ))
+    (ht : ∀ op ∈ ops, op.target ≠ r) : (runH h ops).get r = h.get r := by
+  induction ops generalizing h with
+  | nil => rfl
+  | cons op rest ih =>
+    obtain ⟨f1, f2, _⟩ := step_sep_frame h hs op
+    have h1 := ih (stepH h op) f1 (fun o ho => ht o (by simp [ho]))
+    have h2 := f2 r (Ne.symm (ht op (by simp)))
+    exact h1.trans h2
+
+theorem copy_carries (h : Heap ℝ) (hs : Sep h) (k j : Nat) (src : Obj ℝ) (hk : h.get k = some src)
+    (hj : j < h.regs.length) : (stepH h (.copy k j)).get j = some src := by
+  rcases copy_effect h k j with ⟨hn, _⟩ | ⟨src', hsrc, e1⟩
+  · rw [hk] at hn; cases hn
+  · rw [hk] at hsrc; cases hsrc
+    rw [e1, (alloc_spec h hs j _).2.1 hj, copyCtor_eq]
+
+theorem sliceCopy_carries (h : Heap ℝ) (hs : Sep h) (k j : Nat) (src : Obj ℝ) (hk : h.get k = some src)
+    (hj : j < h.regs.length) : (stepH h (.sliceCopy k j)).get j = some { src with vValues := none } := by
+  rcases sliceCopy_effect h k j with ⟨hn, _⟩ | ⟨src', hsrc, e1⟩
+  · rw [hk] at hn; cases hn
+  · rw [hk] at hsrc; cases hsrc
+    rw [e1, (alloc_spec h hs j _).2.1 hj, copySimplexPart_eq]
+
+theorem assign_carries (h : Heap ℝ) (hs : Sep h) (k j : Nat) (src tgt : Obj ℝ) (hk : h.get k = some src)
+    (hj : h.get j = some tgt) (hc : src.vValues.isSome = tgt.vValues.isSome) :
+    (stepH h (.assign k j)).get j = some src ∧ (applyH h (.assign k j)).2 = none := by
+  have hjl := get_lt h j tgt hj
+  obtain ⟨hk', hvk⟩ := get_eq_some h k src hk
+  obtain ⟨hj', hvj⟩ := get_eq_some h j tgt hj
+  by_cases hkj : k = j
+  · subst hkj
+    rw [hk] at hj; cases hj
+    have : applyH h (.assign k k) = (h, none) := by
+      simp only [applyH, hvk]
+      simp
+    simp only [stepH, this]; exact ⟨hk, trivial⟩
+  · have : applyH h (.assign k j) = (h.allocObj j (tgt.assign src), none) := by
+      simp only [applyH, hvk, hvj]
+      simp [hc, hkj]
+    simp only [stepH, this]
+    rw [(alloc_spec h hs j _).2.1 hjl, assign_eq]; exact ⟨rfl, trivial⟩
+
+theorem sliceAssign_carries (h : Heap ℝ) (hs : Sep h) (k j : Nat) (src tgt : Obj ℝ) (hk : h.get k = some src)
+    (hj : h.get j = some tgt) (hcs : src.vValues.isSome = true) (hct : tgt.vValues = none) :
+    (stepH h (.sliceAssign k j)).get j = some { src with vValues := none } := by
+  have hjl := get_lt h j tgt hj
+  obtain ⟨hk', hvk⟩ := get_eq_some h k src hk
+  obtain ⟨hj', hvj⟩ := get_eq_some h j tgt hj
+  have : applyH h (.sliceAssign k j) = (h.allocObj j (tgt.assignSimplexPart src), none) := by
+    simp only [applyH, hvk, hvj]
+    simp [hcs, hct]
+  simp only [stepH, this]
+  rw [(alloc_spec h hs j _).2.1 hjl, assignSimplexPart_eq, hct]
+
+/-! ### rejected calls -/
+
+/-- a call that raises leaves the heap exactly as it was — except `setFrequencies` -/
+theorem rejected_unchanged (h : Heap ℝ) (hs : Sep h) (op : HOp ℝ) (hr : (applyH h op).2 ≠ none)
+    (hop : ∀ k p, op ≠ .setFreq k p) : stepH h op = h := by
+  cases op with
+  | newVec j ord m a p =>
+    cases ord
+    · rcases create_effect h j (construct p m a) with ⟨o, _, _, e3⟩ | ⟨err, _, e2, _⟩
+      · exact absurd e3 hr
+      · exact e2
+    · rcases create_effect h j (oConstruct p m a) with ⟨o, _, _, e3⟩ | ⟨err, _, e2, _⟩
+      · exact absurd e3 hr
+      · exact e2
+  | newDim j ord n m a =>
+    cases ord
+    · rcases create_effect h j (constructDim n m a) with ⟨o, _, _, e3⟩ | ⟨err, _, e2, _⟩
+      · exact absurd e3 hr
+      · exact e2
+    · rcases create_effect h j (oConstructDim n m a) with ⟨o, _, _, e3⟩ | ⟨err, _, e2, _⟩
+      · exact absurd e3 hr
+      · exact e2
+  | setFreq k p => exact absurd rfl (hop k p)
+  | setPar k θ =>
+    obtain ⟨_, _, _, u4, u5⟩ := updateE_spec h hs k (fun o => o.matchReq (reqOfList θ))
+      (fun o o' e => (matchReq_same o o' _ e).len)
+    cases hg : h.get k with
+    | none => exact u5 hg
+    | some o0 =>
+      cases hf : o0.matchReq (reqOfList θ) with
+      | error err => exact ((u4 o0 hg).2 err hf).1
+      | ok o1 => exact absurd ((u4 o0 hg).1 o1 hf).2 hr
+  | matchSome k pl =>
+    obtain ⟨_, _, _, u4, u5⟩ := updateE_spec h hs k (fun o => o.matchReq (reqOfPairs pl))
+      (fun o o' e => (matchReq_same o o' _ e).len)
+    cases hg : h.get k with
+    | none => exact u5 hg
+    | some o0 =>
+      cases hf : o0.matchReq (reqOfPairs pl) with
+      | error err => exact ((u4 o0 hg).2 err hf).1
+      | ok o1 => exact absurd ((u4 o0 hg).1 o1 hf).2 hr
+  | setSome k pl =>
+    obtain ⟨_, _, _, u4, u5⟩ := updateE_spec h hs k (fun o => o.setReq (reqOfPairs pl))
+      (fun o o' e => (setReq_same o o' _ e).len)
+    cases hg : h.get k with
+    | none => exact u5 hg
+    | some o0 =>
+      cases hf : o0.setReq (reqOfPairs pl) with
+      | error err => exact ((u4 o0 hg).2 err hf).1
+      | ok o1 => exact absurd ((u4 o0 hg).1 o1 hf).2 hr
+  | setOne k i v =>
+    obtain ⟨_, _, _, u4, u5⟩ := updateE_spec h hs k (fun o => o.setOne i v)
+      (fun o o' e => (setOne_same o o' i v e).len)
+    cases hg : h.get k with
+    | none => exact u5 hg
+    | some o0 =>
+      cases hf : o0.setOne i v with
+      | error err => exact ((u4 o0 hg).2 err hf).1
+      | ok o1 => exact absurd ((u4 o0 hg).1 o1 hf).2 hr
+  | fire k =>
+    obtain ⟨_, _, _, u4, u5⟩ := updateE_spec h hs k (fun o => .ok o.fire) fire_len
+    cases hg : h.get k with
+    | none => exact u5 hg
+    | some o0 => exact absurd ((u4 o0 hg).1 o0.fire rfl).2 hr
+  | copy k j =>
+    rcases copy_effect h k j with ⟨_, e1⟩ | ⟨src, hsrc, _⟩
+    · exact e1
+    · exfalso
+      obtain ⟨ho, hv⟩ := get_eq_some h k src hsrc
+      apply hr; simp only [applyH, hv]
+  | sliceCopy k j =>
+    rcases sliceCopy_effect h k j with ⟨_, e1⟩ | ⟨src, hsrc, _⟩
+    · exact e1
+    · exfalso
+      obtain ⟨ho, hv⟩ := get_eq_some h k src hsrc
+      apply hr; simp only [applyH, hv]
+  | assign k j =>
+    rcases assign_effect h k j with e1 | ⟨src, tgt, hsrc, htgt, hc, hne, _⟩
+    · exact e1
+    · exfalso
+      obtain ⟨_, hv⟩ := get_eq_some h k src hsrc
+      obtain ⟨_, hw⟩ := get_eq_some h j tgt htgt
+      apply hr; simp only [applyH, hv, hw]; simp [hc, hne]
+  | sliceAssign k j =>
+    rcases sliceAssign_effect h k j with e1 | ⟨src, tgt, hsrc, htgt, hc, hn, _⟩
+    · exact e1
+    · exfalso
+      obtain ⟨_, hv⟩ := get_eq_some h k src hsrc
+      obtain ⟨_, hw⟩ := get_eq_some h j tgt htgt
+      apply hr; simp only [applyH, hv, hw]; simp [hc, hn]
+  | baseAssign k j =>
+    rcases baseAssign_effect h k j with e1 | ⟨src, tgt, hsrc, htgt, hn, hc, hd, _⟩
+    · exact e1
+    · exfalso
+      obtain ⟨_, hv⟩ := get_eq_some h k src hsrc
+      obtain ⟨_, hw⟩ := get_eq_some h j tgt htgt
+      apply hr; simp only [applyH, hv, hw]; simp [hn, hc, hd]
+
+theorem setFrequencies_rejected (o : Obj ℝ) (p : List ℝ) (hr : (o.setFrequencies p).2 ≠ none) :
+    EqButCache (o.setFrequencies p).1 o := by
+  unfold Obj.setFrequencies at hr ⊢
+  cases hv : o.vValues with
+  | none => simp only [hv] at hr ⊢; exact setFrequenciesBase_rejected o p hr
+  | some w =>
+    simp only [hv] at hr ⊢
+    unfold Obj.oSetFrequencies at hr ⊢
+    split
+    · exact EqButCache.refl _
+    · split
+      · exact EqButCache.refl _
+      · rename_i h1 h2
+        simp only [h1, h2, if_false] at hr
+        cases hb : o.setFrequenciesBase (orderedToProbs p 1) with
+        | mk o' err =>
+          cases err with
+          | none => rw [hb] at hr; simp at hr
+          | some e =>
+            simp only
+            have := setFrequenciesBase_rejected o (orderedToProbs p 1) (by rw [hb]; simp)
+            rw [hb] at this; exact this
+
+/-- a `setFrequencies` that raises leaves every member of every object as it was, except the ratio
+cache of the object it was called on -/
+theorem rejected_setFrequencies (h : Heap ℝ) (hs : Sep h) (k : Nat) (p : List ℝ)
+    (hr : (applyH h (.setFreq k p)).2 ≠ none) :
+    ∀ r o, h.get r = some o → ∃ o', (stepH h (.setFreq k p)).get r = some o' ∧ EqButCache o' o ∧ (r ≠ k → o' = o) := by
+  obtain ⟨_, u2, _, u4, _⟩ := update_spec h hs k (fun o => o.setFrequencies p)
+    (fun o => (setFrequencies_same o p).len)
+  intro r o hg
+  by_cases hrk : r = k
+  · subst hrk
+    obtain ⟨g1, g2⟩ := u4 o hg
+    refine ⟨_, g1, ?_, fun hne => absurd rfl hne⟩
+    apply setFrequencies_rejected
+    intro hn
+    apply hr
+    have : (applyH h (.setFreq r p)).2 = Option.map HErr.exc (o.setFrequencies p).2 := g2
+    rw [this, hn]; rfl
+  · exact ⟨o, by rw [← hg]; exact u2 r hrk, EqButCache.refl _, fun _ => rfl⟩
+
+/-! ### the ratio cache is never read before it is rewritten -/
+
+theorem eqButCache_iff (a b : Obj ℝ) : EqButCache a b ↔ a = { b with valpha := a.valpha } := by
+  constructor
+  · intro h
+    cases a; cases b
+    obtain ⟨h1, h2, h3, h4, h5⟩ := h
+    simp only at h1 h2 h3 h4 h5
+    subst h1 h2 h3 h4 h5
+    rfl
+  · intro h; rw [h]; exact ⟨rfl, rfl, rfl, rfl, rfl⟩
+
+/-- `fireParameterChanged` on two objects that differ in the ratio cache only: the results differ
+in the cache only — and not at all for the local-ratio coding (positive dimension), the one coding
+that uses the cache -/
+theorem fire_ignores_cache (a b : Obj ℝ) (h : EqButCache a b) :
+    EqButCache a.fire b.fire ∧ (b.method = 2 → b.dim ≠ 0 → a.fire = b.fire) := by
+  have hθ : a.θ = b.θ := by simp [Obj.θ, h.params]
+  obtain ⟨a1, a2, a3, a4, a5, _, _⟩ := fire_fields a
+  obtain ⟨b1, b2, b3, b4, b5, _, _⟩ := fire_fields b
+  have hvp : a.fireBase.vProb = b.fireBase.vProb := by
+    unfold Obj.fireBase
+    rw [h.dim, h.method, hθ]
+    split
+    · simp [h.vProb]
+    · split <;> simp [h.vProb]
+  have hvv : a.fire.vValues = b.fire.vValues := by
+    unfold Obj.fire Obj.refresh
+    rw [(fireBase_fields a).2.2.2, (fireBase_fields b).2.2.2, h.vValues, hvp]
+    cases b.vValues with
+    | none => simp only [(fireBase_fields a).2.2.2, (fireBase_fields b).2.2.2, h.vValues]
+    | some w => rfl
+  have hE : EqButCache a.fire b.fire :=
+    ⟨by rw [a1, b1, h.params], by rw [a2, b2, h.dim], by rw [a3, b3, h.method], by rw [a4, b4, hvp], hvv⟩
+  refine ⟨hE, ?_⟩
+  intro hm hd
+  have hc : a.fire.valpha = b.fire.valpha := by
+    rw [a5, b5, fireBase_cache a (by rw [h.dim]; exact hd), fireBase_cache b hd, h.method, hθ]
+    simp [hm]
+  rw [(eqButCache_iff _ _).mp hE, hc]
 
 end Bpp.SimplexObj
